@@ -59,7 +59,7 @@ def _gen_lamps(ch: Chooser):
         occ.take(proto, x, y)
         name = f"e{k + 1}"
         c.stmts.append(["place", name, proto, ["lit", x, 10], ["lit", y, 10], None])
-        form = ch.weighted([(4, "inline"), (2, "named"), (2, "expr"),
+        form = ch.weighted([(4, "inline"), (2, "named"), (2, "expr"), (3, "sel"),
                             (3 if bundles else 0, "anyall"), (1 if bundles else 0, "bsel")])
         thr = ch.i32_biased(-30, 30)
         c.thresholds.add(thr)
@@ -71,6 +71,15 @@ def _gen_lamps(ch: Chooser):
             e = ["var", nm]
             if ch.chance(1, 3):   # the comparison is used elsewhere too
                 c.stmts.append(["decl", "Signal", c.fresh("u"), ["bin", "+", ["var", nm], ["lit", 1, 10]]])
+        elif form == "sel":
+            # conditional value as enable: positive, negative and zero constants, or a signal
+            cond = ["bin", ch.pick(lang.CMP_OPS), g.sig_leaf(), ["lit", thr, 10]]
+            val = ["lit", ch.pick([-1, -7, 1, 5, 0, 100]), 10] if ch.chance(2, 3) else g.sig_leaf()
+            e = ["sel", cond, val]
+            if ch.chance(1, 3):
+                nm = c.fresh("c")
+                c.stmts.append(["decl", "Signal", nm, e])
+                e = ["var", nm]
         elif form == "expr":
             e = g.expr(ch.rint(0, 2))
         elif form == "anyall":
